@@ -335,6 +335,20 @@ def check_final(V: Verdicts, prop, plan, run: Run, ctl: Ctl, Tmax: int):
     ops = plan["lifetimes"][-1]["ops"]
     if not any(o["op"] == "solve_to" and o["it"] == Tmax for o in ops) or any(o["op"] == "solve" for o in ops):
         return
+    b = h["boot"]
+    if b["result"] == "ok" and not b.get("fallback") and b.get("iteration", 0) >= ctl.end_it:
+        # the kill came after the last sweep: the restored state already IS the final result
+        # (calling solve() again on it performs a further sweep, as it would in the original
+        # process) - compare what was restored, not what a further call makes of it
+        st = run.boots[len(run.hist["lifetimes"]) - 1]["state"]
+        bad = [k for k in same_state(ctl.final, st) if not k.startswith("policy")] if st is not None else []
+        if ctl.final.get("value_history", 0) is None:
+            bad = [k for k in bad if k != "value_history"]  # the control cleared its history on convergence
+        if b.get("iteration") == ctl.end_it and bad:
+            V.bad(f"{prop}:final_state_differs", f"state restored after the last sweep: fields {bad} differ from the uninterrupted run at iteration {ctl.end_it}")
+        elif b.get("iteration") == ctl.end_it:
+            V.ok("final_state_equal_to_control")
+        return
     if int(fin["iteration"]) != ctl.end_it:
         V.bad(f"{prop}:final_iteration_differs", f"resumed run ended at iteration {int(fin['iteration'])}, uninterrupted run at {ctl.end_it}")
         return
